@@ -3,7 +3,7 @@
 # usage: cbuild.sh <profile> ; exit code = cargo's
 cd /verif/sim || exit 2
 export CARGO_NET_OFFLINE=true
-out=$(cargo build --profile "$1" --message-format=short 2>&1)
+out=$(cargo build --profile "$1" --target-dir "target/t-$1" --message-format=short 2>&1)
 rc=$?
 echo "$out" | grep -E "^src/|^error|panicked|could not compile" | grep -v "^/repo" | head -${2:-60}
 exit $rc
